@@ -723,6 +723,29 @@ fn models(thorough: bool) -> Vec<PipeModel> {
                 ops.push(Op::PolicySwap);
             }
         }
+        // add-path: a next-hop flap that touches only a non-best path, or only the best one
+        if pack == "apnht" {
+            ops.clear();
+            ops.push(Op::Announce { src: 0, pfx: 0, attr: 0, nh: 0 });
+            ops.push(Op::Announce { src: 1, pfx: 0, attr: 1, nh: 1 });
+            ops.push(Op::Nh { nh: 0, up: false });
+            ops.push(Op::Nh { nh: 0, up: true });
+            ops.push(Op::Nh { nh: 1, up: false });
+            ops.push(Op::Nh { nh: 1, up: true });
+            ops.push(Op::Withdraw { src: 0, pfx: 0 });
+            ops.push(Op::Withdraw { src: 1, pfx: 0 });
+        }
+        // export policy that starts / stops rejecting a path that stays inside the add-path window
+        if pack == "appol" {
+            ops.clear();
+            ops.push(Op::Announce { src: 0, pfx: 0, attr: 0, nh: 0 });
+            ops.push(Op::Announce { src: 1, pfx: 0, attr: 1, nh: 1 });
+            if thorough {
+                ops.push(Op::Announce { src: 1, pfx: 0, attr: 0, nh: 1 });
+                ops.push(Op::Withdraw { src: 0, pfx: 0 });
+            }
+            ops.push(Op::PolicySwap);
+        }
         if pack == "late" {
             ops.clear();
             ops.push(Op::Announce { src: 0, pfx: 0, attr: 0, nh: 0 });
@@ -753,13 +776,17 @@ fn models(thorough: bool) -> Vec<PipeModel> {
     let mut v = vec![
         mk("c01-ebgp-idreuse", ObsRole::Ebgp, 1, 2, "idreuse"),
         mk("c01-ibgp-multi", ObsRole::Ibgp, 1, 1, "multi"),
-        mk("c01-ebgp-addpath2", ObsRole::Ebgp, 2, 1, "multi"),
         mk("c01-ibgp-gr", ObsRole::Ibgp, 1, 1, "gr"),
         mk("c01-ebgp-addpath2-gr", ObsRole::Ebgp, 2, 1, "gr"),
+        mk("c01-ebgp-addpath2-nht", ObsRole::Ebgp, 2, 1, "apnht"),
+        mk("c01-ebgp-addpath2-policy", ObsRole::Ebgp, 2, 1, "appol"),
         mk("c01-ebgp-late", ObsRole::Ebgp, 1, 1, "late"),
         mk("c01-ibgp-addpath2-late", ObsRole::Ibgp, 2, 1, "late"),
     ];
     if thorough {
+        v.push(mk("c01-ebgp-addpath2", ObsRole::Ebgp, 2, 1, "multi"));
+        v.push(mk("c01-ebgp-policy", ObsRole::Ebgp, 1, 1, "appol"));
+        v.push(mk("c01-rrclient-addpath2-policy", ObsRole::RrClient, 2, 1, "appol"));
         v.push(mk("c01-rrclient-multi", ObsRole::RrClient, 1, 2, "multi"));
         v.push(mk("c01-rsclient-multi", ObsRole::RsClient, 1, 1, "multi"));
         v.push(mk("c01-ebgp-multi", ObsRole::Ebgp, 1, 2, "multi"));
@@ -795,7 +822,8 @@ pub(crate) fn run(replay: Option<&str>) -> Report {
         // the multi-source pack has ~20 ops: one level less in the quick tier
         // (thorough: 7 / 5 - the state now contains the queued change events, which costs a
         // factor of ~15 in states against the earlier, unsound, fingerprint)
-        let d = if m.ops.len() > 16 { if thorough { depth - 2 } else { depth - 1 } } else { depth };
+        // 20-op packs one (thorough: two) levels less; the small focused packs (<= 9 ops) one more
+        let d = if m.ops.len() > 16 { if thorough { depth - 2 } else { depth - 1 } } else if m.ops.len() <= 9 { depth + 1 } else { depth };
         let cfg = BfsCfg { max_depth: d, max_secs: if thorough { 600 } else { 40 }, ..Default::default() };
         bfs::bfs(&m, &cfg, &mut rep);
         if let Some(e) = take_machinery() {
